@@ -19,6 +19,7 @@ pub fn scenarios() -> Vec<Scenario> {
     vec![
         scn!(scenario_rerandomized_signing, 3),
         scn!(scenario_rerandomized_cheaters_and_threshold, 2),
+        scn!(scenario_explicit_randomizer, 2),
         crate::wrap::scn_rerandomized(1),
     ]
 }
@@ -338,4 +339,119 @@ pub fn scenario_rerandomized_cheaters_and_threshold<C: Suite>(rng: &mut TestRng,
             ),
         ),
     }
+}
+
+/// The quantifier of C17 covers "all seeds and explicit randomizers (zero included as the degenerate case)".  An EXPLICIT
+/// randomizer alpha - an edge value of the scalar range (0, 1, 2, order-1, order-2, 2^top, ...) or a random one - goes through the
+/// explicit-randomizer entry points: participants call `frost_rerandomized::sign(.., Randomizer)`, the coordinator builds its
+/// parameters with `RandomizedParams::from_randomizer` and aggregates.  Signing and aggregation succeed in every mode, the
+/// signature verifies under vk + [alpha]G computed here (for alpha = 0 that is vk itself) and, for alpha != 0 only, not under vk;
+/// the randomizer survives its encoding; a cheater is still named.
+#[allow(deprecated)]
+pub fn scenario_explicit_randomizer<C: Suite>(rng: &mut TestRng, p: &Params, notes: &mut Notes) -> Verdict {
+    let keys = keygen::<C>(rng, p, false)?;
+    let signers = signer_ids::<C>(&keys, p);
+    let (nonces, commitments) = commit_all::<C>(rng, &keys.key_packages, &signers)?;
+    let package = fc::SigningPackage::<C>::new(commitments, &p.message);
+    let vk = keys.pubkeys.verifying_key();
+    let (name, alpha) = match rng.below(10) {
+        0..=2 => ("0", zero::<C>()),
+        3..=7 => pick_boundary::<C>(rng, false),
+        _ => ("random", random_nonzero_scalar::<C>(rng)),
+    };
+    notes.insert("explicit_randomizer".into(), json!(name));
+    notes.insert("explicit_randomizer_hex".into(), json!(hex(&scalar_bytes::<C>(&alpha))));
+    let randomizer = rr::Randomizer::<C>::from_scalar(alpha);
+    // the randomizer is sent to the participants: it survives its encoding
+    let sent = must(
+        rr::Randomizer::<C>::deserialize(&randomizer.serialize()),
+        &format!("Randomizer::deserialize of the encoding of the explicit randomizer {name}"),
+    )?;
+    check(sent == randomizer, "the decoded randomizer equals the one that was encoded", hex(&randomizer.serialize()), hex(&sent.serialize()))?;
+    let params = rr::RandomizedParams::<C>::from_randomizer(vk, randomizer);
+    // the randomized key, independently
+    let vk_ser = match <<Gr<C> as Group>::Serialization as TryFrom<&[u8]>>::try_from(&vkey_bytes::<C>(vk)) {
+        Ok(x) => x,
+        Err(_) => return skip("key encoding"),
+    };
+    let vk_el = need(<Gr<C> as Group>::deserialize(&vk_ser), "group key element")?;
+    let want_key = vk_el + base_mul::<C>(&alpha);
+    if want_key == <Gr<C> as Group>::identity() {
+        return skip("randomizer is minus the secret key");
+    }
+    check(
+        vkey_bytes::<C>(params.randomized_verifying_key()) == elem_bytes::<C>(&want_key),
+        &format!("randomized verifying key equals group key + generator * randomizer (explicit randomizer {name})"),
+        hex(&elem_bytes::<C>(&want_key)),
+        hex(&vkey_bytes::<C>(params.randomized_verifying_key())),
+    )?;
+    if alpha == zero::<C>() {
+        check(
+            params.randomized_verifying_key() == vk,
+            "with the zero randomizer the randomized verifying key is the group key itself",
+            hex(&vkey_bytes::<C>(vk)),
+            hex(&vkey_bytes::<C>(params.randomized_verifying_key())),
+        )?;
+    }
+    let mut shares = BTreeMap::new();
+    for id in &signers {
+        let (kp, n) = match (keys.key_packages.get(id), nonces.get(id)) {
+            (Some(k), Some(n)) => (k, n),
+            _ => return skip("internal"),
+        };
+        let s = must(
+            rr::sign::<C>(&package, n, kp, sent),
+            &format!("frost_rerandomized::sign by an honest signer with the explicit randomizer {name}"),
+        )?;
+        shares.insert(*id, s);
+    }
+    let sig = must(
+        rr::aggregate::<C>(&package, &shares, &keys.pubkeys, &params),
+        &format!("rerandomized aggregate of honest shares made with the explicit randomizer {name}"),
+    )?;
+    for (mname, mode) in [
+        ("Disabled", CheaterDetection::Disabled),
+        ("FirstCheater", CheaterDetection::FirstCheater),
+        ("AllCheaters", CheaterDetection::AllCheaters),
+    ] {
+        let s2 = must(
+            rr::aggregate_custom::<C>(&package, &shares, &keys.pubkeys, mode, &params),
+            &format!("rerandomized aggregate_custom({mname}) of honest shares made with the explicit randomizer {name}"),
+        )?;
+        check(s2 == sig, &format!("rerandomized aggregate_custom({mname}) returns the same signature"), short_dbg(&sig), short_dbg(&s2))?;
+    }
+    must(
+        params.randomized_verifying_key().verify(&p.message, &sig),
+        &format!("the signature verifies under the group key offset by the explicit randomizer {name}"),
+    )?;
+    if alpha == zero::<C>() {
+        must(vk.verify(&p.message, &sig), "with the zero randomizer the signature verifies under the group key itself")?;
+    } else if vk.verify(&p.message, &sig).is_ok() {
+        return fail(
+            "the signature does not verify under the original group key (non-zero randomizer)",
+            "Err(..)",
+            "Ok(())",
+        );
+    }
+    // cheater identification holds unchanged
+    let victim = match signers.get(rng.below(signers.len())) {
+        Some(v) => *v,
+        None => return skip("internal"),
+    };
+    if let Some(old) = shares.get(&victim) {
+        let z = sigshare_scalar::<C>(old)? + random_nonzero_scalar::<C>(rng);
+        let mut bad = shares.clone();
+        bad.insert(victim, make_sigshare::<C>(&z)?);
+        let e = must_refuse(
+            rr::aggregate::<C>(&package, &bad, &keys.pubkeys, &params),
+            &format!("rerandomized aggregate with one altered share (explicit randomizer {name})"),
+        )?;
+        check(
+            e.culprits() == vec![victim],
+            &format!("the participant whose share was altered is named (explicit randomizer {name})"),
+            format!("[{}]", id_hex::<C>(&victim)),
+            format!("{:?}", culprits_hex::<C>(&e)),
+        )?;
+    }
+    Ok(())
 }
